@@ -27,11 +27,11 @@ class Prop(BaseProp):
         big = tier == "thorough"
         cases = []
         q = C05()
-        plan = [(2, 2, 4), (4, 3, 6), (8, 5, 3), (0, 3, 5), (3, 0, 0), (12, 6, 3), (5, 4, 8)]
+        plan = [(2, 2, 4), (4, 3, 6), (8, 5, 3), (0, 3, 5), (3, 0, 0), (12, 6, 3), (5, 4, 8), (2, 7, 12)]
         if big:
             plan = plan * 3 + [(60, 40, 10)]
         for i, (nf, nc, mc) in enumerate(plan):
-            files, cas = sg.gen_shard(rng, nf, nc, "random", max_chunks=mc, dup_rate=(0.3 if nc * mc <= 18 else 0.0))
+            files, cas = sg.gen_shard(rng, nf, nc, "random", max_chunks=mc, dup_rate=(0.3 if (nc * mc <= 18 or (nc, mc) == (7, 12)) else 0.0))
             if i % 3 == 1 and files:
                 # segments carrying high cas_flags bits (legal: the field is opaque to the shard code)
                 f = max(files, key=lambda x: len(x["segs"]))
@@ -55,7 +55,9 @@ class Prop(BaseProp):
         base = [sg.fmt_cas(c) for c in cas] + [sg.fmt_file(f) for f in files]
         for j, (x, grace) in enumerate([(100000 + 5000, 0), (100000 - 5000, 0), (100000 - 5000, 10000), (100000 - 5000, 4000), (0, 0), (100000 - 50, 50 - 10), (100000 - 50, 200),
                                         ((1 << 64) - 1, 0), ((1 << 64) - 1, 1 << 63), (100000 + 5000, 1 << 63)]):
-            ops = base + ["expire %d %d %s" % (x, grace, sg.mk_hash(rng).hex())]
+            # (every second case records a creation time other than now: in the local future, or long ago)
+            ctime = "" if j % 2 == 0 else " c%d" % rng.choice([100000 + 3000, 100000 + 10 ** 7, 100000 - 90000, 100000 + 1])
+            ops = base + ["expire %d %d %s%s" % (x, grace, sg.mk_hash(rng).hex(), ctime)]
             cases.append({"id": "e%d" % j, "text": " | ".join(ops), "meta": {"nc": 0, "exports": 0, "expire": True}})
         # mixtures: several shards with distinct content, each exported under its own key, one directory
         mcases = []
@@ -93,7 +95,7 @@ class Prop(BaseProp):
             ops.append("qdk %s" % th.hex())
             mcases.append({"id": "pfx%d" % i, "text": " | ".join(ops), "meta": {"nc": len(cas) + 1, "exports": 2, "mix": True}})
         # the manager's keyed collections against its model (first three configurations: registered files only)
-        return [{"name": "c18", "cases": cases, "timeout": 900, "model_may_be_silent": True},
+        return [{"name": "c18", "cases": cases, "timeout": 900, "model_may_be_silent": True, "env": {"XET_VERIF_SKIP_SHARD_INTEGRITY_CHECK": "1"}},
                 {"name": "c18m", "cases": mcases, "model": False, "timeout": 600}] + mgrgen.streams(rng, tier)[:3]
 
     def compare(self, stream, case, io, mo):
